@@ -1,3 +1,5 @@
+#include <sstream>
+#include <cstring>
 // C04: constraint contractors.
 //   hc4 <ranked scalar dag> <rhs itv> <inbox> => <outbox>            model HC4Revise (tightest single pass) must be inside the implementation's result
 //   ctcpt <dags joined by |> <specs joined by |> <point> => <outbox>   a point satisfying every constraint exactly must remain
@@ -110,6 +112,12 @@ static void wl_c04t(Rng& r, long n) {
         CtcAcid acid(sys, hc4);
         CtcCompo compo(fb, cid);
         Ctc* cs[5] = {&fb, &hc4, &cid, &acid, &compo}; const char* nm[5] = {"fwdbwd", "hc4", "3bcid", "acid", "compo"};
+        // the hyperbolic functions of the constraints (gaol computes their bounds from libm values +-1 float: known finding of C01)
+        string hyp;
+        { std::ostringstream ss; for (auto f : fs) ss << *f << " ";
+          const char* hn[6] = {"asinh(", "acosh(", "atanh(", "sinh(", "cosh(", "tanh("};
+          for (int j = 0; j < 6; j++) if (ss.str().find(hn[j]) != string::npos) { if (!hyp.empty()) hyp += ","; hyp += string(hn[j]).substr(0, strlen(hn[j]) - 1); }
+          if (hyp.empty()) hyp = "-"; }
         for (int k = 0; k < 8; k++) {
           int w = r.below(5);
           IntervalVector in(nv);
@@ -117,7 +125,8 @@ static void wl_c04t(Rng& r, long n) {
           IntervalVector out = in;
           cs[w]->contract(out);
           check_round_up(nm[w]);
-          EMIT("ctckeep %s %s %s => %s\n", nm[w], tok(in).c_str(), ptok(p).c_str(), tok(out).c_str());
+          if (getenv("H_CTC_DEBUG") && (out.is_empty() || !out.contains(p))) { std::cerr.precision(17); std::cerr << "c04t lost point: " << nm[w] << " p=" << p << " in=" << in << " out=" << out; for (size_t j = 0; j < fs.size(); j++) std::cerr << "  f" << j << "=" << *fs[j] << " in " << ys[j]; std::cerr << std::endl; }
+          EMIT("ctckeep %s %s %s %s => %s\n", nm[w], tok(in).c_str(), ptok(p).c_str(), hyp.c_str(), tok(out).c_str());
         }
       }
       for (auto f : fs) delete f;
